@@ -123,16 +123,40 @@ def mk_range(g, lo, hi):
 
 
 def g_index(g, name, n):
-    """an index into a list of length n (n >= 1), symbolic"""
+    """an index into a list of length n (n >= 1), symbolic.  In concrete mode
+    (replay, cross-check) an arbitrary leaf value is folded into the valid
+    range; valid values (all solver models) are left as they are."""
     i = g.int(name)
+    if g.concrete:
+        return i % n
     g.assume(And(0 <= i, i < n))
     return i
 
 
 def g_subrange(g, name, n, nonempty=True):
     lo, hi = g.int(name + "_lo"), g.int(name + "_hi")
+    if g.concrete:
+        lo, hi = lo % (n + 1), hi % (n + 1)
+        if lo > hi:
+            lo, hi = hi, lo
+        if nonempty and lo == hi:
+            if n == 0:
+                raise S.PathInfeasible()
+            lo, hi = (lo, hi + 1) if hi < n else (lo - 1, hi)
+        return lo, hi
     g.assume(And(0 <= lo, (lo < hi) if nonempty else (lo <= hi), hi <= n))
     return lo, hi
+
+
+def g_above(g, name, lo, strict=True):
+    """an integer > lo (>= lo if not strict)"""
+    v = g.int(name)
+    if g.concrete:
+        if (v > lo) if strict else (v >= lo):
+            return v
+        return lo + (1 if strict else 0) + (lo - v)
+    g.assume(v > lo if strict else v >= lo)
+    return v
 
 
 def rng_bounds(r):
@@ -249,3 +273,108 @@ class Runner:
             raise
         except Exception as e:
             return None, e
+
+
+# ----------------------------------------------------------------------------
+# stable rendering of results (replay text, cross-check comparison): no object
+# addresses, no symbol numbers, no procedure text
+
+def show_path(p):
+    return "/".join(f"{a}[{i}]" if i is not None else a for a, i in p) or "<root>"
+
+
+def show_cursor(c):
+    if c is None:
+        return "None"
+    if isinstance(c, IC.Node):
+        return f"Node({show_path(c._path)})"
+    if isinstance(c, IC.Gap):
+        return f"Gap({c._type.name} {show_cursor(c._anchor)})"
+    if isinstance(c, IC.Block):
+        return f"Block({show_path(c._anchor._path)}.{c._attr}[{c._range.start}:{c._range.stop}])"
+    return repr(c)
+
+
+def stable(v):
+    if isinstance(v, IC.Cursor):
+        return show_cursor(v)
+    if isinstance(v, BaseException):
+        return f"{type(v).__name__}"
+    if isinstance(v, (list, tuple)):
+        inner = ", ".join(stable(x) for x in v)
+        return f"[{inner}]" if isinstance(v, list) else f"({inner})"
+    if hasattr(v, "_impl") and hasattr(v, "_proc"):            # API cursor
+        return f"{type(v).__name__}<{stable(v._impl)}>"
+    if v is None or isinstance(v, (bool, int, str)):
+        return repr(v)
+    if isinstance(v, (SInt, SBool)):
+        return str(v)
+    return f"<{type(v).__name__}>"
+
+
+class Outcome:
+    """(value, exception) of a driven sequence of calls, with a stable text"""
+    def __init__(self, val, exc):
+        self.val, self.exc = val, exc
+
+    def __iter__(self):
+        return iter((self.val, self.exc))
+
+    def __str__(self):
+        return f"raised {stable(self.exc)}" if self.exc is not None else stable(self.val)
+
+
+# ----------------------------------------------------------------------------
+# a statement list of SYMBOLIC length (navigation laws for every block length)
+
+class Elem:
+    """the i-th statement of a symbolic-length list: an arbitrary statement,
+    identified by its position"""
+    def __init__(self, lst, idx):
+        self.lst, self.idx = lst, idx
+
+    def __repr__(self):
+        return f"<stmt #{self.idx}>"
+
+
+class SList:
+    """model of `list` of statements whose length is a symbolic int n >= 0:
+    len, integer indexing with Python's rules (negative from the end,
+    IndexError outside).  Nothing else is supported (=> Unsupported)."""
+    def __init__(self, n):
+        self.n = n
+
+    def _pyvc_len(self):
+        return self.n
+
+    def _pyvc_isinstance(self, c):
+        return isinstance(c, type) and issubclass(list, c)
+
+    def __len__(self):
+        if isinstance(self.n, int):
+            return self.n
+        raise S.Unsupported("native len() of a symbolic-length list")
+
+    def __getitem__(self, i):
+        if isinstance(i, slice):
+            raise S.Unsupported("slice of a symbolic-length list")
+        if i < 0:
+            i = i + self.n
+        if 0 <= i and i < self.n:
+            return Elem(self, i)
+        raise IndexError("list index out of range")
+
+    def __iter__(self):
+        raise S.Unsupported("iteration over a symbolic-length list")
+
+    def __repr__(self):
+        return f"<list of {self.n} statements>"
+
+
+class SymRoot:
+    """a root whose body is a symbolic-length list"""
+    def __init__(self, n):
+        self.body = SList(n)
+
+    def __repr__(self):
+        return f"<proc with {self.body.n} statements>"
